@@ -148,6 +148,17 @@ def api_driver(inp, outp, find=None, repl=None, atol=5e-2, fraction=1.0, hints=(
     return found
 
 
+def same_file(t1, t2, ext):
+    """the two files describe the same structure: identical up to the free-text title line of a LAMMPS
+    data file (LAMMPS skips it) and up to comment lines of a CIF"""
+    if t1 == t2:
+        return True
+    if ext == 'lmpdat':
+        return t1.split('\n')[1:] == t2.split('\n')[1:]
+    strip = lambda t: [l for l in t.split('\n') if not l.lstrip().startswith('#')]
+    return strip(t1) == strip(t2)
+
+
 def run_example(sc, ctx, out):
     name, args = EXAMPLES[sc['example']]
     d = tempfile.mkdtemp(prefix='ex', dir=tmpdir())
@@ -178,7 +189,7 @@ def run_example(sc, ctx, out):
     (r2, err2), _ = ex.run(lambda: call(api_driver, argv[0], o2, **kw), answers)
     if err2:
         V('api-runs', 'example-api-exc', 'the API sequence raised %r' % (err2[0],))
-    elif open(o1).read() != open(o2).read():
+    elif not same_file(open(o1).read(), open(o2).read(), ext):
         V('same-structure', 'example-differs', 'the file written by the command line differs from the file written through the API with the same draws')
     out['outcomes']['example ok'] = 1; out['nontrivial'] = 1
     shutil.rmtree(d, True)
@@ -277,7 +288,7 @@ def run_generated(sc, ctx, out, els, P, cell, pname, d):
         text2 = open(o2).read()
         if text1 is None:
             V('same-structure', 'no-output', 'the command line wrote no output file'); continue
-        if text1 != text2:
+        if same_file(text1, text2, ext) is False:
             dl = [(x, y) for x, y in zip(text1.split('\n'), text2.split('\n')) if x != y][:3]
             V('same-structure', 'differs', 'the file written by the command line differs from the API result (%d vs %d lines; first differences %r)' % (text1.count('\n'), text2.count('\n'), dl))
         # every documented option reaches the operation it names
@@ -294,7 +305,7 @@ def run_generated(sc, ctx, out, els, P, cell, pname, d):
             if exp_out not in res.stdout:
                 V('find-only', 'stdout', 'printed %r, the API reports %r' % (res.stdout[-300:], exp_out))
             (_, e3), _ = ex.run(lambda: call(api_driver, ipath, o2 + '.plain', **{k: v for k, v in kw.items() if k not in ('find', 'repl', 'atol', 'fraction', 'hints')}), ())
-            if not e3 and open(o2 + '.plain').read() != text1:
+            if not e3 and not same_file(open(o2 + '.plain').read(), text1, ext):
                 V('find-only', 'modified', 'a find-only run did not write the structure unmodified')
     out['outcomes']['%s draws=%d opts=%d' % (mode, nd, len(opts))] = 1
     if opts:
